@@ -37,6 +37,12 @@ func genBuildBase(p *PRNG, n int) []*Case {
 		}
 		add(singleBuild("corpus", f.Data))
 	}
+	for i, d := range schemaMatrixDocs() { // every schema position x every kind of user type, each run
+		if i >= n/4 {
+			break
+		}
+		add(singleBuild("schema-matrix", []byte(d)))
+	}
 	for len(cases) < n {
 		switch p.Intn(10) {
 		case 0, 1:
@@ -110,6 +116,45 @@ func schemaShapeDoc(p *PRNG) string {
 		b.WriteString("PUT /x\n  Request " + ref() + "\n  200 " + ref() + "\n  404\n    " + inline() + "\n")
 	}
 	return b.String()
+}
+
+// schemaMatrixDocs: the full product of (place where a schema stands) x (what it refers to): small
+// enough to run completely every time, so no combination depends on generator luck
+func schemaMatrixDocs() []string {
+	types := "TYPE @obj\n{\n  \"id\": 1\n}\nTYPE @rx regex\n  /[a-z]{3}/\nTYPE @an any\nTYPE @em empty\nTYPE @num\n  12\n" +
+		"TYPE @ra\n  @rb | @num\nTYPE @rb\n  @ra | @num\nTYPE @orT\n  @obj|@num\nTYPE @holder\n{\n  \"pet\": @obj|@rx\n}\n" +
+		"TYPE @chain\n  @rx\nTYPE @arr\n  [@obj]\n"
+	refs := []string{"@obj", "@rx", "@an", "@em", "@num", "@ra", "@orT", "@holder", "@chain", "@arr", "@nope", "[@obj]", "[@rx]"}
+	var schemas []string
+	for _, r := range refs {
+		schemas = append(schemas, r, "{\n      \"k\": "+r+"\n    }")
+		if !strings.HasPrefix(r, "[") {
+			schemas = append(schemas, "{ // {allOf: \""+r+"\"}\n      \"since\": 2020\n    }")
+		}
+	}
+	places := []string{
+		"GET /x/{id}\n  Path\n    %s\n  200 any\n",
+		"POST /x\n  Request\n    Headers\n      %s\n    Body any\n  200 any\n",
+		"GET /x\n  200\n    Headers\n      %s\n    Body any\n",
+		"GET /x\n  Query \"a=1\"\n    %s\n  200 any\n",
+		"POST /x\n  Request\n    %s\n  200 any\n",
+		"GET /x\n  200\n    %s\n",
+		"URL /rpc\n  Protocol json-rpc-2.0\n  Method m\n    Params\n      %s\n",
+		"URL /rpc\n  Method m\n    Result\n      %s\n  Protocol json-rpc-2.0\n",
+		"TYPE @user\n  %s\nGET /x\n  200 @user\n",
+	}
+	var out []string
+	for _, pl := range places {
+		for _, sc := range schemas {
+			out = append(out, "JSIGHT 0.3\n"+types+fmt.Sprintf(pl, sc))
+		}
+	}
+	for _, r := range refs { // as a directive parameter
+		if !strings.HasPrefix(r, "[") || r == "[@obj]" || r == "[@rx]" {
+			out = append(out, "JSIGHT 0.3\n"+types+"PUT /x\n  Request "+r+"\n  200 "+r+"\n")
+		}
+	}
+	return out
 }
 
 // pathRuleDoc: paths with one to three parameters, a Path directive that describes some of them
